@@ -375,8 +375,57 @@ def value_origins(f, v, seen):
                 if bb.kind == 'global' and bb.name == '@cfg_include_stack':
                     return {'include-stack'}
                 g = f.defs.get(base.name) if base.kind == 'reg' else None
+            # the entry was handed out by an accessor of the stack (a helper that returns the address of an entry)
+            if g is not None and g.op == 'call' and g.callee_name() and _returns_stack_entry(f.module.funcs.get(g.callee_name()), 0):
+                return {'include-stack'}
         return {'a pointer loaded from %s' % describe(f, a)}
     return {d.op}
+
+
+def _returns_stack_entry(h, depth):
+    """does the helper h return the address of an entry of the include stack (on every path that returns a pointer at all)?"""
+    if h is None or depth > 3:
+        return False
+    seen_entry = False
+    for r in h.instrs():
+        if r.op != 'ret' or not r.ops:
+            continue
+        work = [r.ops[0]]
+        done = set()
+        while work:
+            v = work.pop()
+            if v.kind in ('null',) or (v.kind == 'int' and v.ival == 0):
+                continue
+            if v.kind == 'cexpr':
+                b = v.strip_casts()
+                if b.kind == 'global' and b.name == '@cfg_include_stack':
+                    seen_entry = True
+                    continue
+                return False
+            if v.kind == 'global':
+                if v.name == '@cfg_include_stack':
+                    seen_entry = True
+                    continue
+                return False
+            if v.kind != 'reg' or v.name in done:
+                if v.kind != 'reg':
+                    return False
+                continue
+            done.add(v.name)
+            d = h.defs.get(v.name)
+            if d is None:
+                return False
+            if d.op in ('getelementptr', 'bitcast'):
+                work.append(d.ops[0])
+            elif d.op == 'phi':
+                work.extend(x for x, _ in d.incoming) if d.incoming else work.extend(d.ops)
+            elif d.op == 'select':
+                work.extend(d.ops[1:3])
+            elif d.op == 'call' and d.callee_name() and _returns_stack_entry(h.module.funcs.get(d.callee_name()), depth + 1):
+                seen_entry = True
+            else:
+                return False
+    return seen_entry
 
 
 def _member_stores(f, reg, sty, idx, depth):
